@@ -13,6 +13,17 @@ import (
 var allDeco = 8
 
 var focusClasses = []int{cMissing, cVal, cBad}
+
+// deeper bounds in the thorough tier
+func focusNT() int  { return 1 + v.Tier() } // tests on the focus node: GT | GT and LT
+func sliceMax() int { return 2 + v.Tier() } // elements per slice
+func focusCls() []int {
+	if v.Tier() == 1 {
+		return []int{cMissing, cNil, cBlank, cVal, cBad, cAlt}
+	}
+	return focusClasses
+}
+
 var fullClasses = []int{cMissing, cNil, cBlank, cVal, cBad, cAlt}
 
 // the focus decoration (bits: 1 Required, 2 Default, 4 Catch) is part of the job name so that
@@ -29,6 +40,9 @@ func shapeJobs() []string {
 				out = append(out, m+"/T2/"+sib+ds)
 			}
 			out = append(out, m+"/T3/int"+ds, m+"/T4/nested"+ds, m+"/T5/slicestruct"+ds, m+"/T6/ptrstruct"+ds)
+			if v.Tier() == 1 {
+				out = append(out, m+"/T7/three"+ds) // three fields: six visit orders
+			}
 		}
 	}
 	return out
@@ -70,7 +84,7 @@ func buildShape(job string) *shape {
 			sh.prim = newBool("p", deco, 1, classesFor(mode, fullClasses))
 		}
 	case "T2":
-		focus := newInt("a", fdeco, 1, classesFor(mode, focusClasses))
+		focus := newInt("a", fdeco, focusNT(), classesFor(mode, focusCls()))
 		keys := []string{"i"}
 		kids := []Node{focus}
 		tcode := ""
@@ -83,7 +97,7 @@ func buildShape(job string) *shape {
 			keys, kids = append(keys, "s"), append(kids, newStr("b", dReq, 1, classesFor(mode, []int{cMissing, cVal})))
 		case "slice":
 			el := newIntDeco("b.el", 0, 1)
-			keys, kids = append(keys, "lI"), append(kids, newSlice("b", dReq, 1, el, classesFor(mode, []int{cMissing, cVal}), classesFor(mode, []int{cVal, cBad}), 2))
+			keys, kids = append(keys, "lI"), append(kids, newSlice("b", dReq, 1, el, classesFor(mode, []int{cMissing, cVal}), classesFor(mode, []int{cVal, cBad}), sliceMax()))
 		case "struct":
 			in := newStruct("b", []string{"x", "y"}, []Node{newInt("b.x", dReq, 1, classesFor(mode, []int{cMissing, cVal})), newStr("b.y", 0, 1, classesFor(mode, []int{cMissing, cVal}))}, classesFor(mode, []int{cVal, cMissing, cBad}))
 			keys, kids = append(keys, "n"), append(kids, in)
@@ -101,7 +115,7 @@ func buildShape(job string) *shape {
 		}
 	case "T3":
 		el := newIntDeco("e", fdeco, 1)
-		sh.sl = newSlice("sl", v.Choice("sdeco", 4)&(dReq|dDef), 1, el, classesFor(mode, []int{cMissing, cVal, cAlt}), classesFor(mode, []int{cVal, cBad, cNil}), 2)
+		sh.sl = newSlice("sl", v.Choice("sdeco", 4)&(dReq|dDef), 1, el, classesFor(mode, []int{cMissing, cVal, cAlt}), classesFor(mode, []int{cVal, cBad, cNil}), sliceMax())
 	case "T5":
 		// struct{ lN: Slice(Struct{x: focus, y: String}) (<=2 elements), j: Int.Required }
 		mkEl := func(i int) *StructNode {
@@ -119,6 +133,12 @@ func buildShape(job string) *shape {
 		ps := newPtrStruct("p", v.Choice("notnil", 2) == 1, el)
 		sib := newInt("b", dReq, 1, classesFor(mode, []int{cMissing, cVal}))
 		sh.top = newStruct("top", []string{"pN", "j"}, []Node{ps, sib}, []int{cVal})
+	case "T7":
+		a := newInt("a", fdeco, 1, classesFor(mode, focusClasses))
+		b := newStr("b", dReq, 1, classesFor(mode, []int{cMissing, cVal}))
+		el := newIntDeco("c.el", 0, 0)
+		c := newSlice("c", dReq, 1, el, classesFor(mode, []int{cMissing, cVal}), []int{cVal}, 1)
+		sh.top = newStruct("top", []string{"i", "s", "lI"}, []Node{a, b, c}, []int{cVal})
 	case "T4":
 		focus := newInt("a", fdeco, 1, classesFor(mode, focusClasses))
 		in := newStruct("in", []string{"x", "y"}, []Node{focus, newStr("in.y", dReq, 1, classesFor(mode, []int{cMissing, cVal}))}, classesFor(mode, []int{cVal, cNil}))
